@@ -338,12 +338,27 @@ func censusOf(p *Prog, f *ssa.Function) map[[2]string]int {
 				for oi, o := range []ssa.Value{x.X, x.Y} {
 					for _, c := range constsOf(o) {
 						if c.Value != nil && c.Value.Kind() == constant.Int {
-							out[[2]string{censusOp(x.Op, oi == 0), c.Value.ExactString()}]++
+							op, val := censusOp(x.Op, oi == 0), c.Value
+							if op == "<=" {
+								// integers: x <= c is x < c+1 (and x > c is x >= c+1): one spelling for the census
+								op, val = "<", constant.BinaryOp(val, token.ADD, constant.MakeInt64(1))
+							}
+							out[[2]string{op, val.ExactString()}]++
 						}
 					}
 				}
 			case ssa.CallInstruction:
 				c := x.Common()
+				if bi, ok := c.Value.(*ssa.Builtin); ok && (bi.Name() == "min" || bi.Name() == "max") {
+					// min(x, c) / max(x, c) draw the same boundary as `if x < c`: at x == c both arms agree
+					for _, a := range c.Args {
+						for _, cc := range constsOf(a) {
+							if cc.Value != nil && cc.Value.Kind() == constant.Int {
+								out[[2]string{"<", cc.Value.ExactString()}]++
+							}
+						}
+					}
+				}
 				if op, ok := isBitstreamOp(p, c); ok {
 					name := op[strings.LastIndex(op, ".")+1:]
 					for k, a := range c.Args {
